@@ -2,7 +2,7 @@
     Only statements; models and proofs are in theories/Gmpy.v.  [res] is the outcome type of the
     model: [Ok v] or the exception raised ([EValue] ValueError, [EZeroDiv] ZeroDivisionError);
     [EFuel] would be the model running out of loop fuel (excluded by the theorems). *)
-Require Import MPyC.Gmpy.
+Require Import MPyC.Gmpy MPyC.GmpyRatrec MPyC.GmpyFpp.
 From Coq Require Import ZArith Znumtheory List Bool.
 Import ListNotations.
 Local Open Scope nat_scope.
@@ -149,25 +149,43 @@ Theorem C25_search_loop_spec : forall (isp : tape -> Z -> bool * tape) step fuel
 Proof. exact search_loop_spec. Qed.
 Print Assumptions C25_search_loop_spec.
 
-(** ---- factor_prime_power (soundness; completeness is NOT proved) ---- *)
-Theorem C25_factor_prime_power_sound_partial : forall (isp : tape -> Z -> bool * tape) npf,
+(** ---- factor_prime_power: soundness (oracle accepts only primes) and completeness (correct oracle) ---- *)
+Theorem C25_factor_prime_power_sound : forall (isp : tape -> Z -> bool * tape) npf,
   (forall tp z, fst (isp tp z) = true -> prime z) ->
   forall tp x p d tp', factor_prime_power_gen isp npf tp x = (Ok (p, d), tp') ->
     prime p /\ 0 < d /\ x = p ^ d.
 Proof. exact factor_prime_power_sound. Qed.
-Print Assumptions C25_factor_prime_power_sound_partial.
+Print Assumptions C25_factor_prime_power_sound.
 
 Theorem C25_factor_prime_power_domain : forall isp npf tp x, x <= 1 ->
   fst (factor_prime_power_gen isp npf tp x) = EValue.
 Proof. exact factor_prime_power_domain. Qed.
 Print Assumptions C25_factor_prime_power_domain.
 
-(** ---- ratrec (soundness, domain, termination; "raises only if no solution" is NOT proved) ---- *)
-Theorem C25_ratrec_sound_partial : forall x y N D n d, ratrec_core x y N D = Ok (n, d) ->
+(** completeness on prime powers: with a correct oracle, q^k is factored as (q, k); the only other
+    outcome of the MODEL is running out of the explicit search fuel of next_prime (no prime-gap
+    bound is provable; the Python loop has no such limit).  All other loop fuels are proved sufficient. *)
+Theorem C25_factor_prime_power_complete : forall (isp : tape -> Z -> bool * tape) npf,
+  (forall tp z, fst (isp tp z) = true <-> prime z) ->
+  forall tp q k r tp', prime q -> 0 < k ->
+    factor_prime_power_gen isp npf tp (q ^ k) = (r, tp') -> r = Ok (q, k) \/ r = EFuel.
+Proof. exact factor_prime_power_complete. Qed.
+Print Assumptions C25_factor_prime_power_complete.
+
+(** hence ValueError is raised only for numbers that are not prime powers *)
+Theorem C25_factor_prime_power_raises_only_if_not_prime_power : forall (isp : tape -> Z -> bool * tape) npf,
+  (forall tp z, fst (isp tp z) = true <-> prime z) ->
+  forall tp x tp', factor_prime_power_gen isp npf tp x = (EValue, tp') ->
+    ~ exists q k, prime q /\ 0 < k /\ x = q ^ k.
+Proof. exact factor_prime_power_raises_not_prime_power. Qed.
+Print Assumptions C25_factor_prime_power_raises_only_if_not_prime_power.
+
+(** ---- ratrec: soundness, domain, termination, uniqueness, completeness ---- *)
+Theorem C25_ratrec_sound : forall x y N D n d, ratrec_core x y N D = Ok (n, d) ->
   0 <= N /\ 0 < D /\ 2 * N * D < y /\ (n - x * d) mod y = 0 /\ - N <= n <= N /\
   0 < d <= D /\ Z.gcd n d = 1.
 Proof. exact ratrec_core_sound. Qed.
-Print Assumptions C25_ratrec_sound_partial.
+Print Assumptions C25_ratrec_sound.
 
 Theorem C25_ratrec_domain : forall x y N D,
   (N < 0 \/ D <= 0 \/ y <= 2 * N * D) -> ratrec_core x y N D = EValue.
@@ -177,6 +195,24 @@ Print Assumptions C25_ratrec_domain.
 Theorem C25_ratrec_terminates : forall x y N D, ratrec_core x y N D <> EFuel.
 Proof. exact ratrec_core_no_fuel. Qed.
 Print Assumptions C25_ratrec_terminates.
+
+(** [is_ratrec x y N D n d]: n = x*d (mod y), |n| <= N, 0 < d <= D, gcd(n, d) = 1 *)
+Theorem C25_ratrec_unique : forall x y N D n d n' d', 0 <= N -> 0 < D -> 2 * N * D < y ->
+  is_ratrec x y N D n d -> is_ratrec x y N D n' d' -> n = n' /\ d = d'.
+Proof. exact ratrec_unique. Qed.
+Print Assumptions C25_ratrec_unique.
+
+(** the reconstruction is returned exactly when it exists ... *)
+Theorem C25_ratrec_iff : forall x y N D n d, 0 <= N -> 0 < D -> 2 * N * D < y ->
+  (ratrec_core x y N D = Ok (n, d) <-> is_ratrec x y N D n d).
+Proof. exact ratrec_core_iff. Qed.
+Print Assumptions C25_ratrec_iff.
+
+(** ... and ValueError is raised exactly when there is none *)
+Theorem C25_ratrec_raises_iff_none : forall x y N D, 0 <= N -> 0 < D -> 2 * N * D < y ->
+  (ratrec_core x y N D = EValue <-> ~ exists n d, is_ratrec x y N D n d).
+Proof. exact ratrec_core_raises_iff_none. Qed.
+Print Assumptions C25_ratrec_raises_iff_none.
 
 (** ---- non-vacuity of the implications ---- *)
 Example C25_nonvacuous_gcdext : gcdext 240 (-46) = Ok (2, -9, -47) /\ gcdext (-6) 4 = Ok (2, -1, -1).
@@ -197,3 +233,6 @@ Example C25_nonvacuous_fpp_ratrec : fst (factor_prime_power 50 (of_list []) (103
   fst (factor_prime_power 50 (of_list []) 12) = EValue /\
   ratrec_core 34 101 7 7 = Ok (1, 3) /\ ratrec_core 50 101 7 7 = Ok (-1, 2) /\ ratrec_core 30 101 7 7 = EValue /\ ratrec_core 1 10 3 2 = EValue.
 Proof. vm_compute. repeat split; reflexivity. Qed.
+Example C25_nonvacuous_ratrec_complete : is_ratrec 34 101 7 7 1 3 /\ ratrec_core 34 101 7 7 = Ok (1, 3) /\
+  ratrec_core 10 101 2 2 = EValue.
+Proof. split; [exact is_ratrec_ex | split; [exact ratrec_core_ex | exact ratrec_core_ex_none]]. Qed.
